@@ -20,7 +20,8 @@ def run(ctx):
         "the bounded fibre::mpsc channel is represented by its sequential FIFO specification plus a visible/in-flight distinction (its internals are C01-C05)",
         "HashMap iteration orders are arbitrary lists; byte length and char count order prefixes of one target identically",
         "routing is exercised through custom-stream appenders; the writer-thread loop is exercised by the shutdown-race tie with one file appender (console / rolling_file share run_byte_appender_writer)",
-        "F12b (accepted events lost when the writer's final try_recv drain stops at an in-flight send) is timing dependent: the shutdown-race tie observes it only rarely (listed known finding pipeline:writer-lost-event-accepted-before-shutdown); on the model it is a decide-witness",
+        "the writer's final drain (fix 4f2f2e4, former finding F12b) ends on Disconnected or on the FINAL_DRAIN_GRACE deadline (200 ms): real time is not modelled, the deadline is the explicit environment step graceExpired and the no-loss theorems assume it does not fire before the senders are closed and the in-flight sends have landed (graceEarly = false); C19_residual_graceExpired_early_loses is the decide-witness that an early expiry still loses an accepted event; the shutdown-race tie reports any such loss as pipeline:writer-lost-event-accepted-before-shutdown (no longer a known finding)",
+        "a send is modelled with its closed check and its slot claim as one atomic step (the channel performs them as two loads; a send that passes the check just before close() and claims just after the receiver answered Disconnected is outside the model and belongs to C04)",
         "tracing callsite interest caching is sound because DispatchLayer::enabled depends on (target, level) only",
     ]
     if ctx.replay:
